@@ -178,7 +178,10 @@ pub fn snr_strategy() -> impl Strategy<Value = i8> {
 pub fn cfg_strategy() -> impl Strategy<Value = DevCfg> {
     (0usize..9, 0usize..3, proptest::option::weighted(0.4, (1u8..=8, prop_oneof![Just(1usize), 2usize..5])), 0usize..BOARDS.len()).prop_map(|(ri, fk, bias, b)| {
         let region = REGIONS[ri];
-        DevCfg { region, join_bias: if region.fixed() { bias } else { None }, front: [FrontKind::Nb, FrontKind::Async, FrontKind::AsyncClassC][fk], board: BOARDS[b] }
+        // one configuration in eight has a radio buffer smaller than a full frame (64 or 255 bytes)
+        let small = (ri + fk + b) % 8 == 3;
+        let front = if small { [FrontKind::NbBuf64, FrontKind::AsyncBuf255, FrontKind::AsyncBuf64, FrontKind::NbBuf255][(ri + b) % 4] } else { [FrontKind::Nb, FrontKind::Async, FrontKind::AsyncClassC][fk] };
+        DevCfg { region, join_bias: if region.fixed() { bias } else { None }, front, board: if small { (14, 0) } else { BOARDS[b] } }
     })
 }
 
